@@ -1,23 +1,237 @@
 (** C16 — only a factory token's admin controls it; supply = mints - burns; denoms are
     namespaced and unique.  Only statements closed by [exact]; proofs live in TokenFactory/*Proofs.v.
 
-    Reading aid.  [deliver c s m] is one tokenfactory message as the chain delivers it
-    (ValidateBasic, then the msg-server handler, committed only on success) in state [s] under the
-    configuration [c] ([addr_of c] = sdk.AccAddressFromBech32, an ARBITRARY function of which only
-    "the empty string is not an address" is assumed).  [admin_rec s d] is the stored
-    DenomAuthorityMetadata.Admin of [d] (None: nothing stored). *)
+    Reading aid.
+    * [c : cfg] is the environment: [addr_of c] = sdk.AccAddressFromBech32 (an ARBITRARY function
+      string -> account; the only thing assumed of it is that the empty string is not an address),
+      the tokenfactory and distribution module accounts, the bank's blocked addresses, the fee.
+    * [deliver c s m] is one tokenfactory message as the chain delivers it: ValidateBasic, then
+      the msg-server handler, committed only when the handler succeeds.  It returns the new state
+      and [Ok returned-string] or [Err class]; on [Err] the state is the old one.
+    * [op] is a delivered message [OMsg m] or something ELSE happening on the same bank: a send
+      between accounts [OXSend], another module minting [OXMint] / burning [OXBurn].
+      [step c s o] / [run c ops s] apply one op / a history; [succeeded c s o] says whether it went
+      through.
+    * [admin_rec s d]: the stored DenomAuthorityMetadata.Admin of [d] (None: nothing stored);
+      [meta_of s d]: bank metadata of [d]; [bal], [supply]: the bank ledger.
+    * [privileged m = Some d]: m is a mint / burn / change-admin / set-metadata naming [d].
+    * [construct cr sub] = "factory/" ++ cr ++ "/" ++ sub;  [deconstruct] = types.DeconstructDenom.
+    * [total c f ops s]: sum of [f] over the history, each op evaluated in the state it met;
+      [minted_by c d], [burned_by c d]: amount of [d] a SUCCESSFUL factory mint / burn moved;
+      [ext_delta c d]: what a successful other-module mint (+) or burn (-) did to [d];
+      [created c ops s]: the denoms returned by the successful creates of the history, in order. *)
 From Coq Require Import List ZArith Bool String.
-From Paloma Require Import TokenFactory.Ledger TokenFactory.Denom TokenFactory.DenomProofs
-  TokenFactory.Factory TokenFactory.FactoryProofs.
+From Paloma Require Import TokenFactory.Ledger TokenFactory.LedgerProofs TokenFactory.Denom
+  TokenFactory.DenomProofs TokenFactory.Factory TokenFactory.FactoryProofs.
 From Paloma Require Gen.C16.
 Import ListNotations.
 Open Scope Z_scope.
 
+(** ---- only the current admin ---- *)
+
 (** Whatever the state, a delivered mint / burn / change-admin / set-metadata was sent by the
-    stored admin of the denom it names, and that admin is a real account. *)
-Theorem only_admin_acts_step : forall (c : cfg), addr_of c EmptyString = None ->
+    stored admin of the denom it names, and that admin is a real account (so a denom whose admin
+    is "" — renounced, or never created — obeys nobody). *)
+Theorem only_admin_acts : forall (c : cfg), addr_of c EmptyString = None ->
   forall (s : state) (m : msg) (s' : state) (r : string) (d : denom),
   deliver c s m = (s', Ok r) -> privileged m = Some d ->
   admin_rec s d = Some (sender m) /\ exists a, addr_of c (sender m) = Some a.
 Proof. exact only_admin_step. Qed.
-Print Assumptions only_admin_acts_step.
+Print Assumptions only_admin_acts.
+
+(** The same along every history: at every point of every history from every state. *)
+Theorem only_admin_acts_in_history : forall (c : cfg), addr_of c EmptyString = None ->
+  forall (s0 : state) (pre post : list op) (m : msg) (d : denom),
+  privileged m = Some d ->
+  succeeded c (run c pre s0) (OMsg m) = true ->
+  run c (pre ++ OMsg m :: post) s0 = run c post (step c (run c pre s0) (OMsg m)) /\
+  admin_rec (run c pre s0) d = Some (sender m) /\ exists a, addr_of c (sender m) = Some a.
+Proof. exact only_admin_hist. Qed.
+Print Assumptions only_admin_acts_in_history.
+
+(** Effect form.  In any state the factory can reach ([wf]: a stored admin implies bank metadata —
+    true of the empty state and preserved by every op, next theorem), if ANY op changes the admin
+    record or the metadata of a denom whose admin is [a], then that op is a delivered privileged
+    message on that denom sent by [a], and [a] is a real account.  Other accounts' messages,
+    creates, bank sends and other modules cannot. *)
+Theorem control_only_by_admin : forall (c : cfg), addr_of c EmptyString = None ->
+  forall (s : state) (o : op) (d : denom) (a : string),
+  wf s -> admin_rec s d = Some a ->
+  admin_rec (step c s o) d <> Some a \/ meta_of (step c s o) d <> meta_of s d ->
+  exists m, o = OMsg m /\ sender m = a /\ privileged m = Some d /\ succeeded c s o = true /\
+            exists acc, addr_of c a = Some acc.
+Proof. exact control_only_by_admin. Qed.
+Print Assumptions control_only_by_admin.
+
+Theorem reachable_states_wf : forall (c : cfg), addr_of c EmptyString = None ->
+  wf empty_state /\ forall (ops : list op) (s : state), wf s -> wf (run c ops s).
+Proof. exact (fun c H => conj wf_empty (wf_run c H)). Qed.
+Print Assumptions reachable_states_wf.
+
+(** ---- minting and burning touch the admin's own balance only ---- *)
+
+Theorem mint_burn_touch_admin_only : forall (c : cfg), addr_of c EmptyString = None ->
+  (forall (s : state) (cr : string) (d : denom) (x : Z) (s' : state) (r : string),
+    deliver c s (MMint cr d x) = (s', Ok r) ->
+    exists a, addr_of c cr = Some a /\ admin_rec s d = Some cr /\ 0 < x /\
+      bal (led s') a d = bal (led s) a d + x /\
+      supply (led s') d = supply (led s) d + x /\
+      (forall a' d', (a', d') <> (a, d) -> bal (led s') a' d' = bal (led s) a' d') /\
+      (forall d', d' <> d -> supply (led s') d' = supply (led s) d') /\
+      metas s' = metas s /\ admins s' = admins s) /\
+  (forall (s : state) (cr : string) (d : denom) (x : Z) (s' : state) (r : string),
+    deliver c s (MBurn cr d x) = (s', Ok r) ->
+    exists a, addr_of c cr = Some a /\ admin_rec s d = Some cr /\ 0 < x <= bal (led s) a d /\
+      bal (led s') a d = bal (led s) a d - x /\
+      supply (led s') d = supply (led s) d - x /\
+      (forall a' d', (a', d') <> (a, d) -> bal (led s') a' d' = bal (led s) a' d') /\
+      (forall d', d' <> d -> supply (led s') d' = supply (led s) d') /\
+      metas s' = metas s /\ admins s' = admins s).
+Proof. exact (fun c H => conj (mint_touches_admin_only c H) (burn_touches_admin_only c H)). Qed.
+Print Assumptions mint_burn_touch_admin_only.
+
+(** ---- supply = mints - burns ---- *)
+
+(** Every history, every start state, every denom string: the supply moved by exactly the
+    successful factory mints minus the successful factory burns, plus what other modules did. *)
+Theorem supply_eq_mints_minus_burns : forall (c : cfg), addr_of c EmptyString = None ->
+  forall (ops : list op) (s : state) (d : denom),
+  supply (led (run c ops s)) d =
+  supply (led s) d + total c (minted_by c d) ops s - total c (burned_by c d) ops s
+                   + total c (ext_delta c d) ops s.
+Proof. exact supply_accounting. Qed.
+Print Assumptions supply_eq_mints_minus_burns.
+
+(** When no other module mints or burns [d] during the history (bank sends are allowed): *)
+Theorem supply_eq_mints_minus_burns_closed : forall (c : cfg), addr_of c EmptyString = None ->
+  forall (ops : list op) (s : state) (d : denom),
+  Forall (no_external d) ops ->
+  supply (led (run c ops s)) d =
+  supply (led s) d + total c (minted_by c d) ops s - total c (burned_by c d) ops s.
+Proof. exact supply_eq_mints_minus_burns_closed. Qed.
+Print Assumptions supply_eq_mints_minus_burns_closed.
+
+(** ---- namespace and uniqueness ---- *)
+
+(** A successful create returns exactly factory/<creator>/<sub>; the creator is a valid address
+    without '/', the denom deconstructs back to (creator's account, sub), it had no bank metadata
+    before, and afterwards it has metadata and the creator as admin. *)
+Theorem denom_namespace_and_unique : forall (c : cfg), addr_of c EmptyString = None ->
+  (forall (s : state) (cr sub : string) (s' : state) (d : string),
+    deliver c s (MCreate cr sub) = (s', Ok d) ->
+    d = construct cr sub /\ contains_slash cr = false /\
+    (exists a, addr_of c cr = Some a /\ deconstruct (addr_of c) d = Some (a, sub)) /\
+    meta_of s d = None /\ meta_of s' d = Some 0 /\ admin_rec s' d = Some cr) /\
+  (* nobody else gets a denom inside factory/<cr>/ *)
+  (forall (s : state) (cr' sub' : string) (s' : state) (d cr sub : string),
+    deliver c s (MCreate cr' sub') = (s', Ok d) ->
+    d = construct cr sub -> contains_slash cr = false -> cr' = cr /\ sub' = sub) /\
+  (* never twice, and never a denom that already exists *)
+  (forall (ops : list op) (s : state), NoDup (created c ops s)) /\
+  (forall (ops : list op) (s : state) (d : denom), meta_of s d <> None -> ~ In d (created c ops s)).
+Proof.
+  exact (fun c H => conj (create_in_own_namespace c)
+                   (conj (namespace_exclusive c)
+                   (conj (created_once c H) (existing_denom_never_created c H)))).
+Qed.
+Print Assumptions denom_namespace_and_unique.
+
+(** The codec itself: namespaces of different creators are disjoint, DeconstructDenom inverts
+    GetTokenDenom, and a denom that deconstructs IS factory/<valid address>/<sub>. *)
+Theorem deconstruct_construct_roundtrip :
+  (forall c1 s1 c2 s2 : string,
+    contains_slash c1 = false -> contains_slash c2 = false ->
+    construct c1 s1 = construct c2 s2 -> c1 = c2 /\ s1 = s2) /\
+  (forall (addr_of : string -> option acct) (cr sub d : string) (a : acct),
+    get_token_denom cr sub = Ok d -> addr_of cr = Some a -> deconstruct addr_of d = Some (a, sub)) /\
+  (forall (addr_of : string -> option acct) (d : string) (a : acct) (sub : string),
+    deconstruct addr_of d = Some (a, sub) ->
+    exists cr, d = construct cr sub /\ addr_of cr = Some a /\ contains_slash cr = false /\
+               validate_denom d = true) /\
+  construct "paloma1abc" "foo" = "factory/paloma1abc/foo"%string.
+Proof.
+  exact (conj construct_injective (conj deconstruct_construct (conj deconstruct_shape eq_refl))).
+Qed.
+Print Assumptions deconstruct_construct_roundtrip.
+
+(** ---- denoms the factory did not create ---- *)
+
+(** A denom that does not deconstruct (native, ibc/…, malformed, wrong prefix, invalid creator):
+    no delivered message changes its supply, admin record or metadata, and its balances move only
+    as the creation fee of a create (a transfer from the creator to the community pool). *)
+Theorem foreign_denoms_untouchable : forall (c : cfg), addr_of c EmptyString = None ->
+  forall (s : state) (m : msg) (d : denom),
+  deconstruct (addr_of c) d = None ->
+  let s' := fst (deliver c s m) in
+  supply (led s') d = supply (led s) d /\ admin_rec s' d = admin_rec s d /\ meta_of s' d = meta_of s d /\
+  ((forall a, bal (led s') a d = bal (led s) a d) \/
+   (exists cr sub, m = MCreate cr sub /\ In d (map fst (fee c)))).
+Proof. exact foreign_step. Qed.
+Print Assumptions foreign_denoms_untouchable.
+
+(** Any denom string without an admin record that the history does not itself create — native,
+    malformed, or a well-formed factory name nobody created — is never minted or burned through
+    the factory, and never acquires an admin. *)
+Theorem never_created_never_minted : forall (c : cfg), addr_of c EmptyString = None ->
+  forall (ops : list op) (s : state) (d : denom),
+  admin_rec s d = None -> ~ In d (created c ops s) ->
+  total c (minted_by c d) ops s = 0 /\ total c (burned_by c d) ops s = 0 /\
+  admin_rec (run c ops s) d = None.
+Proof. exact never_created_never_minted. Qed.
+Print Assumptions never_created_never_minted.
+
+(** ---- the model is of the source as it is now ---- *)
+
+(** The guard skeletons the translator reads from x/tokenfactory (ordered calls and conditions of
+    every function on the path of the five messages) are the ones the model was written against,
+    and the codec constants are the ones below.  Any dropped / added / reordered check makes this
+    fail until the model has been looked at again. *)
+Theorem model_is_of_current_source :
+  (Gen.C16.module_denom_prefix = "factory" /\ Gen.C16.max_subdenom_length = 44 /\
+   Gen.C16.max_creator_length = 75 /\ Gen.C16.module_name = "tokenfactory")%string /\
+  (Gen.C16.srv_create_denom = ["call:CreateDenom"] /\
+   Gen.C16.srv_mint = ["call:GetDenomMetaData"; "if(!denomExists){err:types.ErrDenomDoesNotExist}";
+     "call:GetAuthorityMetadata";
+     "if(msg.Metadata.Creator != authorityMetadata.GetAdmin()){err:types.ErrUnauthorized}"; "call:mintTo"] /\
+   Gen.C16.srv_burn = ["call:GetAuthorityMetadata";
+     "if(msg.Metadata.Creator != authorityMetadata.GetAdmin()){err:types.ErrUnauthorized}"; "call:burnFrom"] /\
+   Gen.C16.srv_change_admin = ["call:GetAuthorityMetadata";
+     "if(msg.Metadata.Creator != authorityMetadata.GetAdmin()){err:types.ErrUnauthorized}"; "call:setAdmin"] /\
+   Gen.C16.srv_set_denom_metadata = ["call:Validate"; "call:GetAuthorityMetadata";
+     "if(msg.Metadata.Creator != authorityMetadata.GetAdmin()){err:types.ErrUnauthorized}";
+     "call:SetDenomMetaData"])%string /\
+  (Gen.C16.k_mint_to = ["call:DeconstructDenom"; "call:MintCoins"; "call:AccAddressFromBech32";
+     "ret-call:SendCoinsFromModuleToAccount"] /\
+   Gen.C16.k_burn_from = ["call:DeconstructDenom"; "call:AccAddressFromBech32";
+     "call:SendCoinsFromAccountToModule"; "ret-call:BurnCoins"] /\
+   Gen.C16.k_create_denom = ["call:validateCreateDenom"; "call:chargeForCreateDenom";
+     "call:createDenomAfterValidation"] /\
+   Gen.C16.k_validate_create_denom = ["if(k.bankKeeper.HasSupply(ctx, subdenom)){err:Errorf}";
+     "call:GetTokenDenom"; "call:GetDenomMetaData"; "if(found){err:types.ErrDenomExists}"] /\
+   Gen.C16.k_charge_for_create_denom = ["assign:creationFee"; "call:AccAddressFromBech32";
+     "if(creationFee != nil){call:FundCommunityPool}"] /\
+   Gen.C16.k_create_denom_after_validation = ["assign:denomMetaData"; "call:SetDenomMetaData";
+     "assign:authorityMetadata"; "call:setAuthorityMetadata"; "call:addDenomFromCreator"] /\
+   Gen.C16.k_get_authority_metadata = ["call:Get"; "assign:metadata"; "call:Unmarshal"] /\
+   Gen.C16.k_set_authority_metadata = ["call:Validate"; "call:GetDenomPrefixStore"; "call:Marshal"; "call:Set"] /\
+   Gen.C16.k_set_admin = ["call:GetAuthorityMetadata"; "assign:metadata.Admin";
+     "ret-call:setAuthorityMetadata"])%string /\
+  (Gen.C16.t_get_token_denom = ["if(len(subdenom) > MaxSubdenomLength){err:ErrSubdenomTooLong}";
+     "if(len(creator) > MaxCreatorLength){err:ErrCreatorTooLong}";
+     "if(strings.Contains(creator, ""/"")){err:ErrInvalidCreator}"; "call:Join"; "ret-call:ValidateDenom"] /\
+   Gen.C16.t_deconstruct_denom = ["call:ValidateDenom"; "call:Split";
+     "if(len(strParts) < 3){err:ErrInvalidDenom}";
+     "if(strParts[0] != ModuleDenomPrefix){err:ErrInvalidDenom}"; "assign:creator";
+     "call:AccAddressFromBech32"; "call:Join"] /\
+   Gen.C16.t_authority_validate = ["if(metadata.Admin != """"){call:AccAddressFromBech32}"])%string /\
+  (Gen.C16.vb_create_denom = ["call:ValidateBasic"; "call:GetTokenDenom"] /\
+   Gen.C16.vb_mint = ["call:ValidateBasic";
+     "if(!m.Amount.IsValid() || m.Amount.Amount.Equal(sdkmath.ZeroInt())){err:sdktypeerrors.ErrInvalidCoins}"] /\
+   Gen.C16.vb_burn = ["call:ValidateBasic";
+     "if(!m.Amount.IsValid() || m.Amount.Amount.Equal(sdkmath.ZeroInt())){err:sdktypeerrors.ErrInvalidCoins}"] /\
+   Gen.C16.vb_change_admin = ["call:ValidateBasic"; "call:DeconstructDenom"] /\
+   Gen.C16.vb_set_denom_metadata = ["call:ValidateBasic"; "call:Validate"; "call:DeconstructDenom"])%string.
+Proof.
+  exact (conj (conj eq_refl (conj eq_refl (conj eq_refl eq_refl))) (conj (conj eq_refl (conj eq_refl (conj eq_refl (conj eq_refl eq_refl)))) (conj (conj eq_refl (conj eq_refl (conj eq_refl (conj eq_refl (conj eq_refl (conj eq_refl (conj eq_refl (conj eq_refl eq_refl)))))))) (conj (conj eq_refl (conj eq_refl eq_refl)) (conj eq_refl (conj eq_refl (conj eq_refl (conj eq_refl eq_refl)))))))).
+Qed.
+Print Assumptions model_is_of_current_source.
